@@ -118,6 +118,12 @@ def observe(rec: Dict[str, Any], ue: bool) -> List[Tuple[str, str]]:
         return out
     judge("JSONPointer.resolve", lambda: p.resolve(doc))
     judge("resolve(default)", lambda: p.resolve(doc, default=SENTINEL), default=True)
+    if "toks" in rec:
+        # the same pointer given as its reference tokens (strings): built from parts, and handed to the module-level resolve
+        toks = [untext(t) for t in rec["toks"]]
+        judge("from_parts.resolve", lambda: JSONPointer.from_parts(toks, unicode_escape=ue).resolve(doc))
+        judge("pointer.resolve(parts)", lambda: jsonpath.pointer.resolve(toks, doc, unicode_escape=ue))
+        judge("from_parts.resolve(default)", lambda: JSONPointer.from_parts(toks, unicode_escape=ue).resolve(doc, default=SENTINEL), default=True)
     judge("pointer.resolve(default)", lambda: jsonpath.pointer.resolve(txt, doc, default=SENTINEL, unicode_escape=ue), default=True)
     try:
         ex = p.exists(doc)
